@@ -1,0 +1,27 @@
+//go:build verif
+
+package client
+
+import (
+	"context"
+
+	"github.com/ipfs/boxo/bitswap/client/internal/messagequeue"
+	"github.com/ipfs/boxo/internal/verifhook"
+	peer "github.com/libp2p/go-libp2p/core/peer"
+)
+
+// Bridge for the external verification harness: the message queue lives in an
+// internal package, these aliases make it reachable from outside the module.
+type (
+	VerifMessageQueue = messagequeue.MessageQueue
+	VerifMQNetwork    = messagequeue.MessageNetwork
+	VerifMQDump       = messagequeue.VerifDump
+)
+
+// VerifNewMessageQueue is messagequeue.VerifNew.
+func VerifNewMessageQueue(ctx context.Context, p peer.ID, network VerifMQNetwork, maxMsgSize int) *VerifMessageQueue {
+	return messagequeue.VerifNew(ctx, p, network, maxMsgSize)
+}
+
+// VerifSetHook is verifhook.SetHook (the hook package is internal to the module).
+func VerifSetHook(f func(string)) { verifhook.SetHook(f) }
